@@ -17,6 +17,7 @@ import (
 	"os"
 	"path/filepath"
 	"sync"
+	"sync/atomic"
 	"testing"
 	"time"
 
@@ -252,6 +253,42 @@ func c01RunCase(rec *ev.Recorder, c c01Case, root string) {
 				if st != 200 || string(body) != tx.Cid.String() {
 					rec.Violation(mode+"/api-sig-to-cid/wrong", fmt.Sprintf("%s: sig %s: status %d body %q want %s", c.Name, sig, st, body, tx.Cid), c)
 				}
+			}
+		}
+		// concurrent fetches: the same lookups from 8 goroutines at once (a reader shared between requests,
+		// e.g. a seekable data reader, only shows when two fetches are in flight)
+		{
+			var wg sync.WaitGroup
+			var bad atomic.Int64
+			var firstBad atomic.Value
+			nConc := 0
+			for g := 0; g < 8; g++ {
+				wg.Add(1)
+				go func(g int) {
+					defer wg.Done()
+					for i := g; i < len(m.Sections); i += 8 {
+						if sample > 1 && (i/8)%sample != 0 {
+							continue
+						}
+						s := m.Sections[i]
+						got, err := ep.GetNodeByCid(ctx, s.Cid)
+						if err != nil || !bytes.Equal(got, s.Data) {
+							if bad.Add(1) == 1 {
+								firstBad.Store(fmt.Sprintf("section %d cid %s: err=%v, %d bytes returned, %d expected", i, s.Cid, err, len(got), len(s.Data)))
+							}
+						}
+					}
+				}(g)
+			}
+			wg.Wait()
+			for i := range m.Sections {
+				if !(sample > 1 && (i/8)%sample != 0) {
+					nConc++
+				}
+			}
+			rec.Eval(nConc)
+			if n := bad.Load(); n > 0 {
+				rec.Violation(mode+"/cid-lookup/wrong-under-concurrent-fetches", fmt.Sprintf("%s: %d of %d concurrent fetches failed; first: %v", c.Name, n, nConc, firstBad.Load()), c)
 			}
 		}
 		if ep.rootCid != (cid.Cid{}) && !ep.rootCid.Equals(m.Root) {
